@@ -165,8 +165,33 @@ def judge(stream, ref, p, eof, delivered, error):
     return out
 
 
+def trickle_stream(name, stream, k, use_wrapper):
+    """the stream arrives in chunks of k bytes (more than a thousand pieces for one payload), the reader running in
+    between: same messages and same final state as for one chunk; cut short inside the trickled payload: the
+    incomplete-read error"""
+    ref = reference(stream)
+    n = len(stream)
+    viols = []
+    key1, delivered1, error1 = execute(stream, [n], False, use_wrapper)
+    cuts = sorted(set(range(k, n + 1, k)) | {n})
+    key, delivered, error = execute(stream, cuts, False, use_wrapper)
+    for v in judge(stream, ref, n, False, delivered, error):
+        viols.append(v + (dict(stream=name, cuts=f"every {k} bytes", eof=False),))
+    if key != key1 and not viols:
+        viols.append(("segmentation", "state-depends-on-chunking", f"{k}-byte chunks end in a different reader state than a single chunk",
+                      dict(stream=name, cuts=f"every {k} bytes", eof=False)))
+    p = ref[1][0] - 3 if ref[1] else n  # three bytes before the end of the first message
+    cuts = sorted(set(range(k, p + 1, k)) | {p})
+    key, delivered, error = execute(stream, cuts, True, use_wrapper)
+    for v in judge(stream, ref, p, True, delivered, error):
+        viols.append(v + (dict(stream=name, cuts=f"every {k} bytes up to {p}", eof=True),))
+    return dict(stream=name, bytes=n, states=3, transitions=2 * len(cuts) + 1, positions=2, expected_states=3, viols=viols[:40], nviols=len(viols))
+
+
 def explore_stream(args):
     name, stream, positions, use_wrapper = args
+    if isinstance(positions, tuple) and positions and positions[0] == "trickle":
+        return trickle_stream(name, stream, positions[1], use_wrapper)
     ref = reference(stream)
     n = len(stream)
     pos = sorted(set(positions) | {0, n}) if positions is not None else list(range(0, n + 1))
@@ -265,6 +290,10 @@ def streams(ctx):
         for plen in (k * 65536 - 1, k * 65536, k * 65536 + 1):
             st = message(3, plen) + message(1, 1)
             out.append((f"len{plen}", st, sorted({0, 16, 16 + 65535, 16 + 65536, 16 + plen - 65536, 16 + plen, len(st)}), False))
+    # a payload that trickles in: 1200 bytes byte by byte, 4096 bytes in chunks of 2 and 3 bytes (1365..2048 pieces of one
+    # payload, the reader woken for each)
+    for plen, k in ((1200, 1), (4096, 2), (4096, 3)) + (((9000, 1), (65536, 16)) if ctx.thorough else ()):
+        out.append((f"trickle-{plen}-{k}", message(3, plen) + message(1, 1), ("trickle", k), False))
     # long streams: cut positions restricted to a window around every boundary plus a 509-byte grid
     win = 17 if ctx.thorough else 3
     longs = [(255, 256, 4095, 4096, 0, 1, 255, 17)] if not ctx.thorough else [
@@ -312,7 +341,12 @@ def replay(ctx, body):
     if c["stream"] not in jobs:
         ctx2 = core.Ctx(ctx.prop, "thorough", ctx.seed)
         jobs = {j[0]: j for j in streams(ctx2)}
-    name, stream, _, wrap = jobs[c["stream"]]
+    name, stream, pos_, wrap = jobs[c["stream"]]
+    if isinstance(c["cuts"], str):
+        r = trickle_stream(name, stream, pos_[1], wrap)
+        for x in r["viols"]:
+            print("FAILS:", x[:3])
+        return 1 if r["viols"] else 0
     key, delivered, error = execute(stream, list(c["cuts"]), bool(c["eof"]), wrap)
     key2, _, _ = execute(stream, list(c["cuts"]), bool(c["eof"]), wrap)
     print("stream", name, len(stream), "bytes; cuts", c["cuts"], "eof", c["eof"])
